@@ -110,7 +110,8 @@ func ReadFile(r Reader, out interface{}, cb func(val unsafe.Pointer, rb *Resourc
 		return err
 	}
 
-	var decoder compressionCodec
+	// A file without a codec entry is uncompressed.
+	var decoder compressionCodec = nullCompression{}
 	if compress, ok := fh.Meta["avro.codec"]; ok {
 		switch string(compress) {
 		case "null":
